@@ -15,6 +15,18 @@ COQ_DEPS = ["Common/ListX.v", "Common/ObsHash.v", "Generated/Tables.v", "Model/C
 COQ_IMPORTS = "From Mesa Require Import Model.ContGeom Model.ContLegacy Model.ContExp."
 COQ_CASE_TYPE = "case"
 COQ_RUN = "run_case"
+_LEG, _EXP, _AGT = ("mesa/space.py", "mesa/experimental/continuous_space/continuous_space.py",
+                    "mesa/experimental/continuous_space/continuous_space_agents.py")
+# the source functions Model/ContLegacy.v and Model/ContExp.v transcribe (harness/fingerprint.py escalates when one moves)
+SOURCE_FUNCS = (
+    [(_LEG, "ContinuousSpace." + f) for f in (
+        "__init__", "agents", "_build_agent_cache", "_invalidate_agent_cache", "place_agent", "move_agent",
+        "remove_agent", "get_neighbors", "get_heading", "get_distance", "torus_adj", "out_of_bounds")]
+    + [(_EXP, "ContinuousSpace." + f) for f in (
+        "__init__", "agents", "_add_agent", "_remove_agent", "calculate_difference_vector", "calculate_distances",
+        "get_agents_in_radius", "get_k_nearest_agents", "in_bounds", "torus_correct")]
+    + [(_AGT, "ContinuousSpaceAgent")]          # position getter/setter, __init__, remove, the two neighbour forms
+)
 TABLE_CONSTRUCTS = ["cont_legacy_oob", "cont_exp_in_bounds", "cont_exp_growth", "cont_exp_kth", "cont_radius_ops",
                     "cont_wrap", "cont_exp_remove"]
 ENUM_ALWAYS = False
@@ -308,6 +320,9 @@ def gen_cases(rng, tier):
         cases.append(c)
     for i in range(2 if tier == "quick" else 12):
         cases.append(_big_growth_case(rng))
+    # oracle-only stream with arbitrary (non-dyadic) binary64 numbers: not evaluated by the Z-scaled model
+    for i in range(260 if tier == "quick" else 5000):
+        cases.append(_mk_float(rng, "legacy" if i % 5 < 2 else "exp"))
     return cases
 
 
@@ -417,6 +432,8 @@ def run_impl(case):
 
     with warnings.catch_warnings():
         warnings.simplefilter("ignore")
+        if case.get("float"):
+            return _run_float(case)
         if case["space"] == "legacy":
             return _run_legacy(case)
         return _run_exp(case)
@@ -880,6 +897,556 @@ def _run_exp(case):
     return {"obs": obs, "failures": list(fails), "ops_for_model": ops_for_model}
 
 
+# ------------------------------------------------------------------ arbitrary binary64 stream (oracle only)
+# Histories whose bounds, coordinates, radii and query points are arbitrary doubles (non-dyadic origins and sizes,
+# magnitudes up to 1e4).  There is no Gallina side (run_impl returns "model": False); the statement is checked on the
+# implementation alone:
+#   * an agent reports, BIT FOR BIT, the last position assigned to it; on a torus an out-of-bounds assignment reports
+#     lo + ((x - lo) % (hi - lo)) evaluated once in binary64 (an axis that was inside may also be reported unchanged);
+#   * no operation on other agents, no growth / compaction / cache rebuild changes a single bit of it;
+#   * space.agents is exactly the agents placed and not removed; rejected assignments change nothing;
+#   * radius answers are checked for every agent with |d - r| > FT_TIE, distances to 1e-9 relative, k-nearest legality
+#     with the margin FT_TIE, symmetry of the distance, |heading| = distance to 1e-9 relative.
+# Exact distances are computed with fractions.Fraction from the doubles themselves.
+FT_TIE = 1e-6
+FT_REL = 1e-9
+
+
+def _f_bounds(rng, nd):
+    bs = []
+    for _ in range(nd):
+        mag = rng.choice([1.0, 1.0, 10.0, 100.0, 1000.0, 10000.0])
+        lo = rng.uniform(-mag, mag) if rng.random() < 0.85 else 0.0
+        size = rng.choice([rng.uniform(0.3, 3.0), rng.uniform(1.0, 60.0), rng.uniform(1.0, 60.0), 0.1 * rng.randint(3, 90),
+                           rng.uniform(100.0, 2000.0)])
+        hi = lo + size
+        bs.append([lo, hi])
+    return bs
+
+
+def _f_inside(rng, bounds):
+    p = []
+    for lo, hi in bounds:
+        r = rng.random()
+        if r < 0.04:
+            x = lo
+        elif r < 0.07:
+            x = hi
+        else:
+            # NOT of the form fl(lo + t): low-order bits unrelated to the origin, so that x - lo + lo, a second
+            # modulo, a float32 detour ... do not happen to reproduce x
+            x = lo + (hi - lo) * rng.random()
+            x = x * (1.0 + rng.uniform(-1e-9, 1e-9)) + rng.uniform(-1e-9, 1e-9)
+            x = min(max(x, lo), hi)
+        p.append(x)
+    return p
+
+
+def _f_outside(rng, bounds):
+    p = _f_inside(rng, bounds)
+    i = rng.randrange(len(bounds))
+    lo, hi = bounds[i]
+    size = hi - lo
+    import math
+
+    p[i] = rng.choice([hi + size * rng.uniform(0.001, 2.5), lo - size * rng.uniform(0.001, 2.5), hi + 1e-9 * max(1.0, abs(hi)),
+                       lo - 1e-9 * max(1.0, abs(lo)), hi + size, lo - size,
+                       # one ulp outside: (x - lo) % size rounds to size itself when |lo| is small against size, so the
+                       # wrapped coordinate is hi and a second wrap would send it to lo
+                       math.nextafter(lo, -math.inf), math.nextafter(hi, math.inf), lo - 1e-20 if lo == 0.0 else lo - size * 3])
+    return p
+
+
+def _f_true_axis(torus, lo, hi, a, b):
+    from fractions import Fraction as F
+
+    d = abs(F(a) - F(b))
+    if torus:
+        size = F(hi) - F(lo)
+        d = d % size
+        d = min(d, size - d)
+    return d
+
+
+def _f_dist(torus, bounds, p, q):
+    """the (toroidal) Euclidean distance of two points given as doubles, exact up to the final sqrt"""
+    import math
+    from fractions import Fraction as F
+
+    d2 = sum((_f_true_axis(torus, lo, hi, a, b) ** 2 for (lo, hi), a, b in zip(bounds, p, q)), F(0))
+    n, d = d2.numerator, d2.denominator
+    # sqrt of an exact rational: scale to keep ~60 significant bits
+    return math.sqrt(n / d) if n.bit_length() < 900 and d.bit_length() < 900 else math.sqrt(float(d2))
+
+
+def _mk_float(rng, space):
+    nd = 2 if space == "legacy" else rng.choice([2, 2, 3])
+    torus = rng.random() < 0.55
+    bounds = _f_bounds(rng, nd)
+    case = {"space": space, "float": True, "bounds": bounds, "torus": torus}
+    if space == "exp":
+        case["cap"] = rng.choice([0, 1, 2, 3, 3, 10, 100])
+    half = space == "legacy"
+
+    def wrapped(p):
+        inb = all((lo <= x < hi) if half else (lo <= x <= hi) for (lo, hi), x in zip(bounds, p))
+        if inb:
+            return list(p)
+        if not torus:
+            return None
+        return [lo + ((x - lo) % (hi - lo)) for (lo, hi), x in zip(bounds, p)]
+
+    ops = []
+    placed = {}
+    removed = []
+    nxt = 1
+    nops = rng.randint(6, 28)
+
+    def newpos():
+        return _f_outside(rng, bounds) if rng.random() < (0.35 if torus else 0.12) else _f_inside(rng, bounds)
+
+    def qpoint():
+        if placed and rng.random() < 0.35:
+            return list(rng.choice(list(placed.values())))      # exactly on an agent
+        q = _f_inside(rng, bounds)
+        if not torus and rng.random() < 0.2:
+            q = [x + rng.uniform(-1.0, 1.0) * (hi - lo) * 0.3 for (lo, hi), x in zip(bounds, q)]
+        return q
+
+    def radius(q):
+        m = max(hi - lo for lo, hi in bounds)
+        if placed and rng.random() < 0.6:
+            d = _f_dist(torus, bounds, rng.choice(list(placed.values())), q)
+            # just outside the tie margin on either side, or well away, or (rarely) inside it (then unchecked)
+            return max(0.0, d + rng.choice([2e-6, -2e-6, 3e-6, -3e-6, 1e-5, -1e-5, 1e-3, -1e-3, 1e-8, 0.0]))
+        return rng.choice([0.0, m * rng.random(), m * rng.random() * 0.5, m])
+
+    while len(ops) < nops:
+        r = rng.random()
+        n = len(placed)
+        if r < 0.25 or (n == 0 and r < 0.8):
+            if n >= 9:
+                continue
+            if removed and space == "legacy" and rng.random() < 0.3:
+                a = removed.pop(rng.randrange(len(removed)))
+            else:
+                a = nxt
+                nxt += 1
+            p = newpos()
+            if space == "exp" and wrapped(p) is None:
+                p = _f_inside(rng, bounds)
+            form = rng.choice(["t", "t", "a"]) if space == "legacy" else rng.choice(["l", "t", "a"])
+            ops.append(["place" if space == "legacy" else "add", a, p, form])
+            w = wrapped(p)
+            if w is not None:
+                placed[a] = w
+            elif space == "legacy":
+                removed.append(a)
+        elif r < 0.50 and n:
+            a = rng.choice(list(placed))
+            if rng.random() < 0.15:
+                # a move by a tiny non-representable step (sum rounds): still exactly what is assigned
+                p = [x + rng.uniform(-1e-7, 1e-7) for x in placed[a]]
+                p = [min(max(x, lo), hi if space == "exp" else x) for (lo, hi), x in zip(bounds, p)]
+                if wrapped(p) is None:
+                    p = list(placed[a])
+            else:
+                p = newpos()
+            form = rng.choice(["t", "t", "a"]) if space == "legacy" else rng.choice(["l", "t", "a"])
+            ops.append(["move" if space == "legacy" else "set", a, p, form])
+            w = wrapped(p)
+            if w is not None:
+                placed[a] = w
+            if rng.random() < 0.4:
+                last = next((o for o in reversed(ops[:-1]) if o[0] in ("nbrs", "radius", "dists")), None)
+                if last is not None:
+                    ops.append(list(last))
+        elif r < 0.60 and n:
+            a = rng.choice(list(placed))
+            ops.append(["remove", a])
+            del placed[a]
+            removed.append(a)
+        else:
+            q = qpoint()
+            k = rng.random()
+            if space == "legacy":
+                if k < 0.7:
+                    ops.append(["nbrs", q, radius(q), rng.random() < 0.7])
+                elif k < 0.85:
+                    ops.append(["dist", _f_inside(rng, bounds) if torus else q, _f_inside(rng, bounds)])
+                else:
+                    ops.append(["heading", _f_inside(rng, bounds), _f_inside(rng, bounds), rng.choice(["t", "a"])])
+            else:
+                if k < 0.4:
+                    ops.append(["radius", q, radius(q)])
+                elif k < 0.58 and n:
+                    ops.append(["knear", q, rng.choice([1, n, rng.randint(1, n)])])
+                elif k < 0.68:
+                    ops.append(["dists", q])
+                elif k < 0.78:
+                    ops.append(["diffs", q])
+                elif k < 0.86 and n:
+                    a = rng.choice(list(placed))
+                    ops.append(["nbr_radius", a, radius(placed[a])])
+                elif k < 0.93 and n >= 2:
+                    ops.append(["nbr_near", rng.choice(list(placed)), rng.randint(1, n - 1)])
+                elif n >= 2:
+                    a, b = rng.sample(list(placed), 2)
+                    ops.append(["pair", a, b])
+                elif n:
+                    ops.append(["dists_of", q, [rng.choice(list(placed)) for _ in range(2)]])
+                else:
+                    ops.append(["radius", q, radius(q)])
+    if rng.random() < 0.2:
+        q = _f_inside(rng, bounds)
+        ops = [["nbrs", q, 1.5, True] if space == "legacy" else ["radius", q, 1.5]] + ops[:-1]
+    case["ops"] = ops[:nops]
+    return case
+
+
+def _f_py(p, form):
+    import numpy as np
+
+    if form == "a":
+        return np.array([float(v) for v in p], dtype=float)
+    if form == "l":
+        return [float(v) for v in p]
+    return tuple(float(v) for v in p)
+
+
+def _run_float(case):
+    """oracle-only run of one arbitrary-binary64 history on either space (see the header of this section)"""
+    import math
+
+    import mesa
+    import numpy as np
+
+    sp = case["space"]
+    legacy = sp == "legacy"
+    bounds = [(float(lo), float(hi)) for lo, hi in case["bounds"]]
+    nd = len(bounds)
+    torus = case["torus"]
+    model = mesa.Model(seed=1)
+    if legacy:
+        from mesa.space import ContinuousSpace
+
+        (x0, x1), (y0, y1) = bounds
+        space = ContinuousSpace(x1, y1, torus, x0, y0)
+    else:
+        from mesa.experimental.continuous_space import ContinuousSpace, ContinuousSpaceAgent
+
+        space = ContinuousSpace(np.array([[lo, hi] for lo, hi in bounds]), torus=torus, random=model.random,
+                                n_agents=case["cap"])
+    K = f"C10/float/{sp}"
+    fails = _Fail()
+    obs = []
+    objs = {}        # legacy: label -> agent object (kept across removal); exp: label -> live agent
+    shadow = {}      # label -> list of acceptable bit-exact values per axis (list of tuples)
+    exact = {}       # label -> the position as last reported (used for the distance checks)
+    state = {"dead": False}
+
+    def fail(key, i, what):
+        if not state["dead"]:
+            fails.add(key, i, what)
+        state["dead"] = True
+
+    def inb(p):
+        return all((lo <= x < hi) if legacy else (lo <= x <= hi) for (lo, hi), x in zip(bounds, p))
+
+    def acceptable(p):
+        """None = rejected; else per axis the set of doubles the statement allows the agent to report"""
+        if inb(p):
+            return [(float(x),) for x in p]
+        if not torus:
+            return None
+        out = []
+        for (lo, hi), x in zip(bounds, p):
+            w = lo + ((x - lo) % (hi - lo))
+            out.append((w, float(x)) if (lo <= x < hi) or (not legacy and x == hi) else (w,))
+        return out
+
+    def members():
+        return list(space.agents)
+
+    def report(o):
+        p = o.pos if legacy else o.position
+        return None if p is None else [float(v) for v in p]
+
+    def snapshot():
+        return sorted((o._label, tuple(report(o) or ())) for o in members())
+
+    def check_state(i, touched=None):
+        if state["dead"]:
+            return
+        ms = members()
+        labels = sorted(o._label for o in ms)
+        if labels != sorted(shadow):
+            fail(f"{K}/agents/wrong-set", i, f"space.agents holds {labels} but the agents placed and not removed are {sorted(shadow)}")
+            return
+        for o in ms:
+            a = o._label
+            try:
+                got = report(o)
+            except Exception as e:  # noqa: BLE001
+                fail(f"{K}/position/raises", i, f"reading the position of agent {a} raised {type(e).__name__}: {e}")
+                return
+            ok = got is not None and len(got) == nd and all(g in acc for g, acc in zip(got, shadow[a]))
+            if not ok:
+                which = "not-bit-exact" if a == touched else "other-agent-changed"
+                fail(f"{K}/position/{which}", i,
+                     f"agent {a} reports {got!r} ({[float(g).hex() for g in got] if got else None}); last assigned, as the statement allows it: {shadow[a]!r}"
+                     + ("" if a == touched else f" (operation {case['ops'][i]} does not name agent {a})"))
+                return
+            shadow[a] = [(g,) for g in got]
+            exact[a] = got
+        if legacy:
+            for a, o in objs.items():
+                if a not in shadow and o.pos is not None:
+                    fail(f"{K}/position/removed-agent-keeps-pos", i, f"agent {a} is not in the space but has pos {o.pos}")
+                    return
+
+    def close(got, want):
+        return abs(got - want) <= FT_REL * max(1.0, abs(want))
+
+    def check_answer(i, site, q, labels, dists, r=None, k=None, exclude=None, centre=True):
+        """labels (+ distances or None) returned by a range / nearest query around q"""
+        if state["dead"]:
+            return
+        if len(set(labels)) != len(labels):
+            fail(f"{K}/{site}/duplicate-agents", i, f"{site} around {q} returned {labels}")
+            return
+        true = {a: _f_dist(torus, bounds, p, q) for a, p in exact.items() if a != exclude}
+        for a in labels:
+            if a not in true:
+                fail(f"{K}/{site}/wrong-agents", i, f"{site} around {q} returned agent {a} which is not a candidate ({sorted(true)})")
+                return
+        if dists is not None:
+            if len(dists) != len(labels):
+                fail(f"{K}/{site}/distances-misaligned", i, f"{len(labels)} agents, {len(dists)} distances")
+                return
+            for a, d in zip(labels, dists):
+                if not close(float(d), true[a]):
+                    fail(f"{K}/{site}/distance-inexact", i, f"{site} around {q}: agent {a} at {exact[a]} reported at distance {float(d)!r}, its distance is {true[a]!r}")
+                    return
+        if r is not None:
+            for a, d in true.items():
+                if abs(d - r) <= FT_TIE:
+                    continue
+                inside = d < r
+                if not centre:
+                    if exact[a] == [float(x) for x in q]:
+                        inside = False
+                    elif d <= FT_TIE:
+                        continue
+                if inside != (a in labels):
+                    fail(f"{K}/{site}/wrong-agents", i, f"{site} around {q} radius {r!r} returned {sorted(labels)}; agent {a} at {exact[a]} is at distance {d!r} and must {'' if inside else 'not '}be returned")
+                    return
+        if k is not None:
+            if len(labels) != k:
+                fail(f"{K}/{site}/wrong-count", i, f"{site}(k={k}) returned {len(labels)} agents of {len(true)}")
+                return
+            far = max((true[a] for a in labels), default=0.0)
+            for b, d in true.items():
+                if b not in labels and d < far - FT_TIE:
+                    fail(f"{K}/{site}/not-nearest", i, f"{site}(k={k}) around {q} returned {labels} (farthest at {far!r}) but agent {b} left out is at {d!r}")
+                    return
+
+    for i, op in enumerate(case["ops"]):
+        kind = op[0]
+        try:
+            if kind in ("place", "move", "add", "set"):
+                _, a, p, form = op
+                p = [float(v) for v in p]
+                acc = acceptable(p)
+                if legacy:
+                    if a not in objs:
+                        o = mesa.Agent(model)
+                        o.pos = None
+                        o._label = a
+                        objs[a] = o
+                    o = objs[a]
+                    member = o in space._agent_to_index
+                    if len(p) != nd or (kind == "place" and (member or o.pos is not None)) or (kind == "move" and not member):
+                        obs.append([-2])
+                        continue
+                    call = (lambda: space.place_agent(o, _f_py(p, form))) if kind == "place" else (lambda: space.move_agent(o, _f_py(p, form)))
+                else:
+                    if len(p) != nd or (kind == "add" and (a in objs or acc is None)) or (kind == "set" and a not in objs):
+                        obs.append([-2])
+                        continue
+                    if kind == "add":
+                        o = ContinuousSpaceAgent(space, model)
+                        o._label = a
+                        objs[a] = o
+                        shadow[a] = acc
+                    o = objs[a]
+
+                    def call(o=o, p=p, form=form):
+                        o.position = _f_py(p, form)
+                before = snapshot() if acc is None else None
+                try:
+                    call()
+                except Exception as e:  # noqa: BLE001
+                    if acc is None and ("out of bounds" in str(e) or "outside the bounds" in str(e)):
+                        if snapshot() != before:
+                            fail(f"{K}/rejected-call-changed-state", i, f"{op} was rejected ('{e}') but changed the space: before {before}, after {snapshot()}")
+                            fails.add(f"C18/continuous/{'legacy-' + kind if legacy else 'exp-position'}", i, f"rejected {op} changed state")
+                        check_state(i)
+                        obs.append([-1, len(shadow)])
+                        continue
+                    raise
+                if acc is None:
+                    fail(f"{K}/out-of-bounds-accepted", i, f"{op} lies outside the bounds {bounds} of a bounded space and was accepted")
+                else:
+                    shadow[a] = acc
+                check_state(i, touched=a)
+                obs.append([0, len(shadow)])
+            elif kind == "remove":
+                a = op[1]
+                if legacy:
+                    if a not in objs:
+                        o = mesa.Agent(model)
+                        o.pos = None
+                        o._label = a
+                        objs[a] = o
+                    try:
+                        space.remove_agent(objs[a])
+                    except Exception as e:  # noqa: BLE001
+                        if a not in shadow and "does not exist" in str(e):
+                            check_state(i)
+                            obs.append([-1, len(shadow)])
+                            continue
+                        raise
+                    if a not in shadow:
+                        fail(f"{K}/remove_agent/absent-agent-accepted", i, f"remove_agent(agent {a}) did not raise")
+                else:
+                    if a not in objs:
+                        obs.append([-2])
+                        continue
+                    objs.pop(a).remove()
+                shadow.pop(a, None)
+                exact.pop(a, None)
+                check_state(i)
+                obs.append([0, len(shadow)])
+            elif kind == "nbrs":
+                _, q, r, ic = op
+                res = space.get_neighbors(tuple(q), r, ic)
+                labels = [o._label for o in res]
+                check_answer(i, "get_neighbors", q, labels, None, r=r, centre=ic)
+                check_state(i)
+                obs.append([0, len(labels)])
+            elif kind == "dist":
+                _, p, q = op
+                d1 = float(space.get_distance(tuple(p), tuple(q)))
+                d2 = float(space.get_distance(tuple(q), tuple(p)))
+                want = _f_dist(torus, bounds, p, q)
+                if not close(d1, d2):
+                    fail(f"{K}/get_distance/asymmetric", i, f"get_distance({p}, {q}) = {d1!r}, reversed = {d2!r}")
+                elif not close(d1, want):
+                    fail(f"{K}/get_distance/inexact", i, f"get_distance({p}, {q}) = {d1!r}, the distance is {want!r}")
+                check_state(i)
+                obs.append([0, 1])
+            elif kind == "heading":
+                _, p, q, form = op
+                h = space.get_heading(_f_py(p, form), _f_py(q, form))
+                ln = math.sqrt(sum(float(v) ** 2 for v in h))
+                want = _f_dist(torus, bounds, p, q)
+                if len(h) != 2 or not close(ln, want):
+                    fail(f"{K}/get_heading/length", i, f"get_heading({p}, {q}) = {[float(v) for v in h]} of length {ln!r}; the distance is {want!r}")
+                check_state(i)
+                obs.append([0, 1])
+            elif kind in ("radius", "dists", "knear"):
+                q = op[1]
+                if len(q) != nd:
+                    obs.append([-2])
+                    continue
+                qa = np.array(q, dtype=float)
+                if kind == "radius":
+                    agents, dists = space.get_agents_in_radius(qa, op[2])
+                    labels = [o._label for o in agents]
+                    check_answer(i, "get_agents_in_radius", q, labels, list(dists), r=op[2])
+                elif kind == "dists":
+                    dists, agents = space.calculate_distances(qa)
+                    labels = [o._label for o in agents]
+                    if sorted(labels) != sorted(shadow):
+                        fail(f"{K}/calculate_distances/wrong-agents", i, f"returned {labels}, the space holds {sorted(shadow)}")
+                    check_answer(i, "calculate_distances", q, labels, list(dists))
+                else:
+                    k = op[2]
+                    if k == 0 or k > len(space.active_agents):
+                        obs.append([-2])
+                        continue
+                    agents, dists = space.get_k_nearest_agents(qa, k)
+                    labels = [o._label for o in agents]
+                    check_answer(i, "get_k_nearest_agents", q, labels, list(dists), k=k)
+                check_state(i)
+                obs.append([0, len(labels)])
+            elif kind == "diffs":
+                q = op[1]
+                delta = space.calculate_difference_vector(np.array(q, dtype=float))
+                ms = list(space.active_agents)
+                if len(delta) != len(ms):
+                    fail(f"{K}/calculate_difference_vector/misaligned", i, f"{len(delta)} rows for {len(ms)} agents")
+                for o, row in zip(ms, delta):
+                    ln = math.sqrt(sum(float(v) ** 2 for v in row))
+                    if o._label in exact and not close(ln, _f_dist(torus, bounds, exact[o._label], q)):
+                        fail(f"{K}/calculate_difference_vector/length", i, f"difference vector from {q} to agent {o._label} at {exact[o._label]} has length {ln!r}; the distance is {_f_dist(torus, bounds, exact[o._label], q)!r}")
+                check_state(i)
+                obs.append([0, len(ms)])
+            elif kind in ("nbr_radius", "nbr_near"):
+                a = op[1]
+                if a not in objs or a not in exact:
+                    obs.append([-2])
+                    continue
+                me = exact[a]
+                if kind == "nbr_radius":
+                    agents, dists = objs[a].get_neighbors_in_radius(op[2])
+                    labels = [o._label for o in agents]
+                    check_answer(i, "get_neighbors_in_radius", me, labels, list(dists), r=op[2], exclude=a)
+                else:
+                    k = op[2]
+                    near = any(b != a and _f_dist(torus, bounds, p, me) <= FT_TIE for b, p in exact.items())
+                    if k == 0 or len(space.active_agents) < k + 1 or near:
+                        obs.append([-2])
+                        continue
+                    agents, dists = objs[a].get_nearest_neighbors(k)
+                    labels = [o._label for o in agents]
+                    check_answer(i, "get_nearest_neighbors", me, labels, list(dists), k=k, exclude=a)
+                check_state(i)
+                obs.append([0, len(labels)])
+            elif kind == "pair":
+                _, a, b = op
+                if a not in objs or b not in objs:
+                    obs.append([-2])
+                    continue
+                d_ab, _x = space.calculate_distances(objs[a].position, [objs[b]])
+                d_ba, _x = space.calculate_distances(objs[b].position, [objs[a]])
+                want = _f_dist(torus, bounds, exact[a], exact[b])
+                if not close(float(d_ab[0]), float(d_ba[0])):
+                    fail(f"{K}/calculate_distances/asymmetric", i, f"{a}->{b}: {float(d_ab[0])!r}, {b}->{a}: {float(d_ba[0])!r}")
+                elif not close(float(d_ab[0]), want):
+                    fail(f"{K}/calculate_distances/distance-inexact", i, f"distance between agents {a} and {b}: {float(d_ab[0])!r}, is {want!r}")
+                check_state(i)
+                obs.append([0, 1])
+            elif kind == "dists_of":
+                _, q, sub = op
+                if any(a not in objs for a in sub):
+                    obs.append([-2])
+                    continue
+                dists, agents = space.calculate_distances(np.array(q, dtype=float), agents=[objs[a] for a in sub])
+                labels = [o._label for o in agents]
+                if labels != sub or len(dists) != len(sub) or any(not close(float(d), _f_dist(torus, bounds, exact[a], q)) for a, d in zip(sub, dists)):
+                    fail(f"{K}/calculate_distances/agents-subset-wrong", i, f"calculate_distances({q}, agents={sub}) returned {labels} with {[float(d) for d in dists]}")
+                check_state(i)
+                obs.append([0, len(sub)])
+            else:
+                raise ValueError(kind)
+        except Exception as e:  # noqa: BLE001
+            fail(f"{K}/{_site(kind)}/raises", i, f"{op} raised {type(e).__name__}: {e}  (agents in the space: {sorted(shadow)})")
+            obs.append([-1, 99])
+    return {"obs": obs, "failures": list(fails), "model": False}
+
+
 # ------------------------------------------------------------------ model side
 def _pt(p):
     return L.zlist(p)
@@ -891,6 +1458,8 @@ def _bs(bounds):
 
 def coq_case(case):
     ops = []
+    if case.get("float"):   # oracle-only stream: nothing for the scaled-integer model to evaluate
+        return "(CLegacy {| lc_bounds := []; lc_torus := false |} [])"
     if case["space"] == "legacy":
         for op in case["ops"]:
             k = op[0]
@@ -946,12 +1515,15 @@ def coq_case(case):
 
 
 def op_kinds(case):
-    return [f"{case['space']}/{op[0]}" for op in case["ops"]]
+    tag = case["space"] + ("-float" if case.get("float") else "")
+    return [f"{tag}/{op[0]}" for op in case["ops"]]
 
 
 def nontrivial(case):
     obs = case.get("_obs", [])
     done = [o for o in obs if o and o[0] != -2]
+    if case.get("float"):
+        return len(done) >= 3 and any(len(o) > 1 and o[1] > 0 for o in done)
     queries = {"nbrs", "radius", "knear", "dists", "diffs", "nbr_radius", "nbr_near", "dist", "heading", "pair",
                "dists_of", "diffs_of"}
     hit = any(op[0] in queries and o and o[0] not in (-1, -2, SEP) and len(o) > 3
